@@ -209,6 +209,23 @@ def rejecting_guard(body, bb, pred):
     return False
 
 
+def rejections(body):
+    """every boolean test one of whose edges always ends in Err while the other does not: [(switch bb, [(op, l, r) facts that hold on the
+    rejected edge, both spellings], condition term)] - the inputs this function turns away by an explicit comparison"""
+    out = []
+    for sw in q.switches_on(body, lambda d: True):
+        tm = body.blocks[sw]['term']
+        if tm['ty'] != 'bool':
+            continue
+        succs = body.cfg.succ[sw]
+        errs = [s_ for s_ in succs if q.arm_always_err(body, s_)]
+        if len(errs) != 1 or len(succs) != 2:
+            continue
+        cond = q.switch_cond(body, sw)
+        out.append((sw, q.holds_both(cond, q.bool_outcome(body, sw, q.edge_value(body, sw, errs[0]))), cond))
+    return out
+
+
 def option_required(body, is_subject):
     """sites where an Option-valued term satisfying is_subject(term) is required to be Some, the None case ending in Err:
     `x.ok_or(..)?` / `x.ok_or_else(..)?`, `if x.is_none() { return Err }`, `match x { None => return Err, .. }`.
